@@ -256,6 +256,10 @@ func body(s *simrt.Sim, tier string) {
 	}
 	desc := fmt.Sprintf("plaintext %d bytes, cipher %d: %v", len(pt), cph, what)
 	src := &simio.Reader{C: s, Data: mutated, FailAt: srcFail}
+	if srcFail >= 0 {
+		src.FailErr = simio.FailureKinds[s.Choose(len(simio.FailureKinds), "srcerrkind")]
+		desc += fmt.Sprintf(" (error %q)", src.FailErr)
+	}
 	enccommon.Chunking(s, src)
 	var out []byte
 	var end error
